@@ -285,6 +285,8 @@ def build_catalogue():
     op("hstrp.from_bytes", "parse")(lambda: ((lambda: (HEX("32420020000183040001869f04010211000300040a000064bd03"),)), (lambda d: HSTRP.from_bytes(d))))
     op("hstrp.from_bytes_no_options", "parse")(lambda: ((lambda: (HEX("324200000001024108050000d20400000e03"),)), (lambda d: HSTRP.from_bytes(d))))
     op("hstrp.from_bytes_connect", "parse")(lambda: ((lambda: (HEX("324200040000"),)), (lambda d: HSTRP.from_bytes(d))))
+    op("hrnp.calculate_checksum_bytearray_odd")(lambda: ((lambda: (bytearray(HEX("7e0400002010000100") + b"\x1b\x02\x47\x18"),)), (lambda d: HRNP.calculate_checksum(d))))
+    op("hrnp.calculate_checksum_bytearray_even")(lambda: ((lambda: (bytearray(HEX("7e04000020100001001b0247")),)), (lambda d: HRNP.calculate_checksum(d))))
     op("hrnp.from_bytes", "parse")(lambda: ((lambda: (HEX("7e04000020100001001b43b502471808000700000000000000c403"),)), (lambda d: HRNP.from_bytes(d))))
     op("hrnp.roundtrip", "parse")(lambda: ((lambda: (HEX("7e04000020100001001b43b502471808000700000000000000c403"),)), (lambda d: HRNP.from_bytes(d).as_bytes())))
     for nm, hx in (("lp", "08a0020032000000010a2110dd0000413138333634383236313031354e343731382e383035314530313835342e34333837302e313132310b03"),
